@@ -143,7 +143,7 @@ impl Parse for EnumDiscriminantsMeta {
             parenthesized!(content in input);
             let vis = content.parse()?;
             Ok(EnumDiscriminantsMeta::Vis { kw, vis })
-        } else if input.peek(kw::doc) {
+        } else if input.peek(kw::doc) && input.peek2(Token![=]) {
             let _kw = input.parse()?;
             input.parse::<Token![=]>()?;
             let doc = input.parse()?;
